@@ -46,6 +46,12 @@ def do_cut(h, kind):
         kw = {"meta": h._meta}
         if h.known_divisions and len(ds) == h.npartitions:
             kw["divisions"] = h.divisions
+        elif h.known_divisions:
+            # to_delayed() hands out the partitions of the OPTIMIZED collection (one object per partition of h.optimize()): the
+            # divisions that describe these objects are the optimized collection's
+            ho = h.optimize()
+            if ho.known_divisions and len(ds) == ho.npartitions:
+                kw["divisions"] = ho.divisions
         return dx.from_delayed(ds, **kw)
     if kind == "delayed_bare":
         return dx.from_delayed(ds)
@@ -93,6 +99,14 @@ def _replay(case, q, sc, env):
     except Exception as ex:
         return {"unbuildable": f"{type(ex).__name__}: {ex}"[:150]}
     uncut = rel.observe(lambda: rel.run_compute(whole))
+    # the divisions the uncut query RUNS with (its optimized plan) next to the ones it declares before optimization: they differ when
+    # the optimizer moves a row filter below a set_index / sort whose boundaries are quantiles of its input
+    try:
+        drun = whole.optimize().divisions
+        krun = drun[0] is not None and not any(isinstance(d, str) for d in drun)
+    except Exception:
+        drun, krun = (), False
+    div_run = dict(div_known_uncut_run=bool(krun), div_uncut_run=[walk._enc_label(d) for d in drun] if krun else [])
     lines = []
     subs = nodes_of(q)
     for depth, node in enumerate(subs):
@@ -103,7 +117,7 @@ def _replay(case, q, sc, env):
         if getattr(h, "ndim", 0) == 0 or not hasattr(h, "to_delayed"):
             continue            # scalars are cut by persist only
         for kind in case["kinds"]:
-            ln = {"cutdepth": depth, "cutkind": kind, "cut_failed": False, "msg": "", "has_graph": False, "graph": [], "outs": [], "refusal_ok": False, "div_sample_may_differ": False, "div_sample_may_differ": False}
+            ln = {"cutdepth": depth, "cutkind": kind, "cut_failed": False, "msg": "", "has_graph": False, "graph": [], "outs": [], "refusal_ok": False, "div_sample_may_differ": False, **div_run}
             try:
                 imp = do_cut(h, kind)
                 # merge_asof refuses inputs without known divisions ("input must be sorted!"): a cut that (documentedly) loses them makes the rest refuse
@@ -155,11 +169,11 @@ def _replay(case, q, sc, env):
                 ra, rb = rel.observe(lambda: rel.run_compute(a)), rel.observe(lambda: rel.run_compute(b))
                 lines.append({"cutdepth": depth, "cutkind": kind + "+select", "cut_failed": False, "msg": "", "has_graph": False, "graph": [], "outs": [], "refusal_ok": False, "div_sample_may_differ": False,
                               "select": True, "head": node, "uncut_override": rb, "cut": ra, "schema_cut": walk.schema_of(a._meta), "schema_uncut": walk.schema_of(b._meta),
-                              "div_known_uncut": False, "div_known_cut": False, "div_uncut": [], "div_cut": [], "div_loss_documented": True})
+                              "div_known_uncut": False, "div_known_cut": False, "div_uncut": [], "div_cut": [], "div_loss_documented": True, "div_known_uncut_run": False, "div_uncut_run": []})
             except Exception as ex:
                 lines.append({"cutdepth": depth, "cutkind": kind + "+select", "cut_failed": True, "msg": f"{type(ex).__name__}: {ex}"[:200], "has_graph": False, "graph": [], "outs": [], "refusal_ok": False, "div_sample_may_differ": False,
                               "cut": {"ok": False, "err": type(ex).__name__}, "schema_cut": {}, "schema_uncut": {}, "div_known_uncut": False, "div_known_cut": False,
-                              "div_uncut": [], "div_cut": [], "div_loss_documented": True})
+                              "div_uncut": [], "div_cut": [], "div_loss_documented": True, "div_known_uncut_run": False, "div_uncut_run": []})
     # one common scale for all results of this program
     results = [uncut] + [ln["cut"] for ln in lines] + [ln["uncut_override"] for ln in lines if "uncut_override" in ln]
     rel.finalize(results)
